@@ -102,6 +102,7 @@ let handle ws = match ws with
   | ["e2e.req"; f] -> recv ~e2e:true "req" false (parse_fields f)
   | ["e2e.resp"; f] -> recv ~e2e:true "resp" false (parse_fields f)
   | ["e2e.trl"; _; f] -> recv ~e2e:true "trl" false (parse_fields f)
+  | ["e2e.trlx"; _; _; f] -> recv ~e2e:true "trl" false (parse_fields f)
   | ["e2e.many"; kind; count; field; prefix] ->
       let n = int_of_string count in
       let one = List.hd (parse_fields field) in
